@@ -210,9 +210,9 @@ def main(args):
     _setup()
     ck.rule = ("scenarios = final states of the Extract machine spec/mc/MC_Ref: 6 reference-free base schemas per draft x every "
                "subschema position x %d definition names (incl. '', a/b, a~b, ~01, ~1, %%, %%25, 'a b', e-acute, 0, 01, #, ?, "
-               "quote, backslash) x 13 base-URI/store arrangements (local; absolute root id with/without '#'; absolute "
+               "quote, backslash) x 16 base-URI/store arrangements (local; absolute root id with/without '#'; absolute "
                "reference string; relative root id; store document reached by absolute / relative reference, with own id; "
-               "two-reference chain; array element; nested id with absolute / relative reference; urn base) x 13 "
+               "two-reference chain; array element; nested id with absolute / relative reference; a cross-document reference under not/disallow before a local one; the other drafts' id keyword on the way (must be inert); recursion through '#' compared with a 4-fold unfolding; urn base) x 13 "
                "instances; TLC checks Transparent and SameAsOriginal on each and exports the expected located errors, "
                "replayed on real validators (store, tracing resolver) and compared with the real errors of the inlined "
                "schema. Random: extraction at random positions of random deep schemas, judged by TLC (Trace_Errors C02 "
